@@ -730,6 +730,9 @@ func (s *State) applyExtension(fn object.Extension, args []object.Object) object
 			break
 		}
 		if fn.ArgTypes[i] == object.ANY {
+			if fn.Name != "type" { // type() shows references, the others (int(), base64()...) want the value.
+				args[i] = object.Value(arg)
+			}
 			continue
 		}
 		// deref but only if type isn't ANY - so type() gets the REFERENCES but math functions don't/get values.
